@@ -1419,6 +1419,25 @@ static void codec_adaptive(const uint64_t *vals, size_t n, int auto_only) {
             em.encodingMeta.forMeta.range = 200;
             em.encodingMeta.forMeta.offsetWidth = VARINT_WIDTH_8B;
             em.encodingMeta.forMeta.encodedSize = 4 + n;
+        } else if (((vh_idx >> 1) & 1) && (M06 || M16 || M02) && n > 1) {
+            /* third fill: the caller's meta still describes an earlier FOR encode of ANOTHER chunk of the same length
+             * whose frame is spanned by this chunk's first and last element (a chunked writer reusing one meta): both
+             * ends of the new data lie inside the old frame, interior elements need not */
+            uint64_t lo = vals[0] < vals[n - 1] ? vals[0] : vals[n - 1], hi = vals[0] < vals[n - 1] ? vals[n - 1] : vals[0];
+            int wb = 1;
+            while (wb < 8 && ((hi - lo) >> (8 * wb)) != 0) {
+                wb++;
+            }
+            memset(&em, 0, sizeof em);
+            em.originalCount = n;
+            em.encodingType = VARINT_ADAPTIVE_FOR;
+            em.encodingMeta.forMeta.count = n;
+            em.encodingMeta.forMeta.minValue = lo;
+            em.encodingMeta.forMeta.maxValue = hi;
+            em.encodingMeta.forMeta.range = hi - lo;
+            em.encodingMeta.forMeta.offsetWidth = (varintWidth)wb;
+            em.encodingMeta.forMeta.encodedSize = 12 + n * (size_t)wb;
+            em.encodedSize = 1 + em.encodingMeta.forMeta.encodedSize;
         }
         size_t wrote = 0;
         if (!LIBCALL(eapi, forced < 0 ? "auto" : ENCNAME[forced], wrote = forced < 0 ? varintAdaptiveEncode(dst, in, n, &em) : varintAdaptiveEncodeWith(dst, in, n, (varintAdaptiveEncodingType)forced, &em))) {
@@ -1438,6 +1457,31 @@ static void codec_adaptive(const uint64_t *vals, size_t n, int auto_only) {
             continue;
         }
         uint8_t *enc = exact_copy(dst, wrote);
+        if (M16 && type == VARINT_ADAPTIVE_FOR && n > 0) {
+            /* the frame the encoder reports for the FOR sub-stream (its metadata output and the stream's own header)
+             * is the frame of THIS data: count, minimum and offset width */
+            uint64_t tmin = vals[0], tmax = vals[0];
+            for (size_t i = 1; i < n; i++) {
+                tmin = vals[i] < tmin ? vals[i] : tmin;
+                tmax = vals[i] > tmax ? vals[i] : tmax;
+            }
+            int twb = 1;
+            while (twb < 8 && ((tmax - tmin) >> (8 * twb)) != 0) {
+                twb++;
+            }
+            const varintFORMeta *fm = &em.encodingMeta.forMeta;
+            if (fm->count != n || fm->minValue != tmin || (int)fm->offsetWidth != twb) {
+                AFAIL(eapi, "metadata_untrue", "%s: FOR sub-metadata reports count=%zu min=%" PRIu64 " offsetWidth=%d, the data has count=%zu min=%" PRIu64 " and needs offset width %d", cur_desc, (size_t)fm->count, (uint64_t)fm->minValue,
+                      (int)fm->offsetWidth, n, tmin, twb);
+            }
+            uint64_t hmin = 0;
+            int hw = 0;
+            if (LIBCALL("FOR.GetMinValue", "adaptive FOR sub-stream", (hmin = varintFORGetMinValue(enc + 1), hw = (int)varintFORGetOffsetWidth(enc + 1), 1))) {
+                if (hmin != tmin || hw != twb) {
+                    AFAIL(eapi, "metadata_untrue", "%s: header of the FOR sub-stream reports min=%" PRIu64 " offsetWidth=%d, the data has min=%" PRIu64 " and needs offset width %d", cur_desc, hmin, hw, tmin, twb);
+                }
+            }
+        }
         if (M16 && (type == VARINT_ADAPTIVE_FOR || type == VARINT_ADAPTIVE_PFOR)) {
             varintAdaptiveMeta rm;
             memset(&rm, 0, sizeof rm);
